@@ -295,6 +295,8 @@ def build_value(v, frame=None, memo=None):
         d = v.get("d", "float32")
         return np.zeros(tuple(v["s"]), dtype=STRUCT_DTYPES.get(d, d))
     if t == "duck":
+        if v.get("badrepr"):
+            return seams.BadReprDuck(v["s"], v.get("d", "float32"))
         return Duck(v["s"], v.get("d", "float32"))
     if t == "mduck":
         return MDuckSub(v["s"], v.get("d", "float32"))
@@ -508,6 +510,47 @@ class Interp:
             return exc_outcome(e)
         finally:
             sys.modules.pop(name, None)
+
+    def op_exhaust(self, op, path):
+        """Recurse through open contexts until the interpreter's recursion limit is hit (RecursionError is caught here, at
+        the outermost level).  The limit is set just above the current depth so that it is reached after ~40 levels; 'slack'
+        shifts the alignment of the limit relative to the frames of one level."""
+        import sys
+
+        depth = 0
+        f = sys._getframe()
+        while f is not None:
+            depth += 1
+            f = f.f_back
+        old = sys.getrecursionlimit()
+        kind = op["kind"]
+
+        def rec_ctx():
+            with jaxtyped("context"):
+                rec_ctx()
+
+        if kind == "none":
+            @jaxtyped(typechecker=None)
+            def rec_fn(x):
+                return rec_fn(x)
+        elif kind == "new":
+            @jaxtyped(typechecker=TCS["min"])
+            def rec_fn(x):
+                return rec_fn(x)
+        try:
+            sys.setrecursionlimit(depth + 120 + op["slack"])
+            try:
+                if kind == "ctx":
+                    rec_ctx()
+                else:
+                    rec_fn(1)
+                return "returned"
+            except RecursionError:
+                return "RecursionError"
+            except BaseException as e:
+                return exc_outcome(e)
+        finally:
+            sys.setrecursionlimit(old)
 
     def op_hookmod(self, op, path):
         """install_import_hook(name, checker) + first import of a fresh copy of the module + uninstall; the module object is
